@@ -210,4 +210,7 @@ class Parameter(AnnotatedValue):
 
 def make_item_name(array, index):
     """Create a name from an indexable object and its index."""
+    if isinstance(index, AnnotatedValue):
+        # A let constant or macro parameter is written by its name
+        index = index.name
     return f"{array.name}[{index}]"
